@@ -148,6 +148,26 @@ def check(rep, tier, seed):
         if c.diff() is not None:
             core.handle_diff(rep, "C03", "correspondence", c)
             return
+    # reads THROUGH THE ETCD ENDPOINT at revision 1888 (/repo e617587): the backend has no magic revision, RPCServer.Range has —
+    # before the repair every ranged read at explicit revision 1888 (an ordinary revision of a store initialised below it:
+    # "all read revisions between the first and the current revision ... all limits") was answered with partition borders
+    # instead of the snapshot. The scripts, the suite (`etcd`) and the oracle (a Python etcd on raw keys) are C16's
+    # (`c16.magic_revision_case`); here the hits that concern the snapshot itself are C03's.
+    from . import c16
+    engines16 = ["memkv", "badger"] if tier == "quick" else ["memkv", "badger", "tikv"] * 2
+    via_etcd = [c16.magic_revision_case(seed, 100 + i, e) for i, e in enumerate(engines16)]
+    core.run_cases(via_etcd)
+    snapshot_sigs = {c16.MAGIC_SIG, "range-kvs", "range-header", "range-error", "range-count", "crash"}
+    for c in via_etcd:
+        rep.count_case(c)
+        for (_i, desc, sig) in c16.oracle(c):
+            if sig in snapshot_sigs and core.handle_oracle_hit(rep, "C03", sig, c, desc, sig):
+                return
+    for c in via_etcd:
+        if c.diff() is not None:
+            core.handle_diff(rep, "C03", "correspondence-etcd", c)
+            return
+    rep.cov["reads_through_etcd_endpoint_at_magic_revision"] = len(via_etcd)
     cases = [gen_case(seed, i, ENGINES[i % len(ENGINES)], n_ops) for i in range(n_hist)]
     cases += [tombstone_witness(e) for e in ENGINES[:3]]
     # reads while writes are in flight (applied by the engine but not yet readable): scheduled executions
@@ -160,6 +180,9 @@ def check(rep, tier, seed):
     if core.judge(rep, "C03", cases, hist.check_reads, shrink_fn=lambda x: hist.check_reads(x) is not None):
         return
     rep.assumptions += ["reads at revisions the node has reported readable (<= committed) and >= compaction floor",
+                        "through the etcd endpoint (suite `etcd`, scripts and oracle of C16): paginated lists, counts and point reads at "
+                        "revision 1888 (RPCServer.Range's partition-listing magic, an ordinary revision of a store initialised at 1880), at "
+                        "1887 and 1889; the UNLIMITED plain range at exactly 1888 is the in-band partition request (C16 observation)",
                         "range bounds: ANY byte strings — keys over the alphabet, their successors key+\\x00 (continue key of a paginated "
                         "list, end of a single-key range), and bounds with any other byte at or below '$' behind a key or at their start "
                         "(/repo 23c8b93) — judged on raw keys by the MVCC replay",
